@@ -32,10 +32,21 @@ type seenKey struct {
 }
 
 type model struct {
-	role    string
-	last    map[uint64]*assign // epoch (attester, proposer) / period (sync) -> most recent successful fetch
-	seen    map[seenKey]bool
-	classes map[string]bool
+	role     string
+	last     map[uint64]*assign // epoch (attester, proposer) / period (sync) -> most recent successful fetch
+	seen     map[seenKey]bool
+	classes  map[string]bool
+	voidKind map[uint64]string
+
+	// middle reading ("healthy re-fetch liveness"), per epoch / period since the last voiding notice
+	failsSince map[uint64]int  // failed fetches for this epoch / period
+	anyFail    map[uint64]bool // some fetch (for whatever epoch) failed: the handlers fetch the current epoch before the next one, so a failing fetch can block another
+	voidDrift  map[uint64]bool // the notice arrived while the clock was behind the last tick's slot
+	voidLate   map[uint64]bool // the notice was stamped with a slot before the clock's
+	skipSince  map[uint64]bool // a slot went by without a tick since the notice
+	lastTick   uint64
+	grace      map[uint64]bool              // voided by an indices-change notice and no tick processed since
+	current    func(u uint64) map[dkey]bool // the node's current assignment for the operator's validators
 
 	eventInDutyUnit bool
 	refetchChanged  bool
@@ -147,7 +158,10 @@ func (m *model) hasOwnDuties(unit uint64) bool {
 // What each notice voids is the union of (a) what the beacon API says the duties depend on
 // (attester duties of epoch e on the previous, of e+1 on the current dependent root; proposer duties of
 // e on the current dependent root; sync committees on neither) and (b) what the handler resets.
-func (m *model) notice(kind string, clock uint64) {
+func (m *model) notice(kind string, stamp, clock uint64) {
+	drifted := clock < m.lastTick
+	late := stamp < clock
+	clock = stamp
 	e := clock / slotsPerEpoch
 	p := e / epochsPerPeriod
 	var units []uint64
@@ -179,6 +193,19 @@ func (m *model) notice(kind string, clock uint64) {
 			m.classes[kind+"-voids-duties"] = true
 		}
 		m.void(u)
+		m.failsSince[u] = 0
+		m.anyFail[u] = false
+		// witness flags accumulate until the next successful fetch for u
+		m.voidDrift[u] = m.voidDrift[u] || drifted
+		m.voidLate[u] = m.voidLate[u] || late
+		if k, ok := m.voidKind[u]; ok && k != kind {
+			m.voidKind[u] = "several-notices"
+		} else {
+			m.voidKind[u] = kind
+		}
+		if kind == "indices" {
+			m.grace[u] = true
+		}
 	}
 	if m.role == "sync" && m.hasOwnDuties(p) || m.role != "sync" && m.hasOwnDuties(e) {
 		m.eventInDutyUnit = true
@@ -192,22 +219,28 @@ func (m *model) failf(sig, f string, a ...any) *prog.Failure {
 // consume processes the observations of one step in the order they happened. tc == nil: not a tick.
 func (m *model) consume(step string, entries []logEntry, tc *tickCtx) *prog.Failure {
 	// obligations are fixed at the start of the tick: "fetched successfully before that tick"
-	var oblig, exempt []dkey
+	var oblig []dkey
+	voidedStart, judged := false, false
+	var vKind string
+	var vDrift, vLate, vSkip bool
 	if tc != nil {
-		if a := m.last[m.unitOf(tc.slot)]; a != nil {
+		judged = true
+		m.lastTick = tc.slot
+		switch {
+		case !m.inWindow(tc.clock, tc.slot):
+			m.classes["tick-outside-window"] = true
+			judged = false
+		case m.role == "sync" && lastSlotOfPeriod(tc.slot):
+			m.classes["sync-last-slot-of-period-unjudged"] = true
+			judged = false
+		}
+		if a := m.last[m.unitOf(tc.slot)]; a != nil && judged {
+			voidedStart = !a.valid
+			u0 := m.unitOf(tc.slot)
+			vKind, vDrift, vLate, vSkip = m.voidKind[u0], m.voidDrift[u0], m.voidLate[u0], m.skipSince[u0]
 			for _, k := range sortedKeys(a.duties) {
-				if !a.duties[k] || (m.role != "sync" && k.slot != tc.slot) {
-					continue
-				}
-				switch {
-				case !m.inWindow(tc.clock, tc.slot):
-					m.classes["tick-outside-window"] = true
-				case m.role == "sync" && lastSlotOfPeriod(tc.slot):
-					m.classes["sync-last-slot-of-period-unjudged"] = true
-				case a.valid:
+				if a.valid && a.duties[k] && (m.role == "sync" || k.slot == tc.slot) {
 					oblig = append(oblig, k)
-				default:
-					exempt = append(exempt, k)
 				}
 			}
 		}
@@ -216,6 +249,10 @@ func (m *model) consume(step string, entries []logEntry, tc *tickCtx) *prog.Fail
 		switch {
 		case en.fetch && !en.ok:
 			m.classes["fetch-failure"] = true
+			m.failsSince[en.unit]++
+			for u := range m.voidKind {
+				m.anyFail[u] = true
+			}
 		case en.fetch:
 			if prev := m.last[en.unit]; prev != nil {
 				if sameSet(prev.duties, en.duties) {
@@ -226,6 +263,10 @@ func (m *model) consume(step string, entries []logEntry, tc *tickCtx) *prog.Fail
 				}
 			}
 			m.last[en.unit] = &assign{duties: en.duties, valid: true}
+			delete(m.voidDrift, en.unit)
+			delete(m.voidLate, en.unit)
+			delete(m.skipSince, en.unit)
+			delete(m.voidKind, en.unit)
 			if tc != nil {
 				tc.fetched[en.unit] = append(tc.fetched[en.unit], en.duties)
 			}
@@ -305,12 +346,48 @@ func (m *model) consume(step string, entries []logEntry, tc *tickCtx) *prog.Fail
 		}
 		return m.failf("missed", "%s: %v duty of validator %d at slot %d was not dispatched although the assignment for epoch/period %d had been fetched successfully before this tick and no notice voided it since", step, m.primary(), k.val, tc.slot, u)
 	}
-	for _, k := range exempt {
-		if !m.seen[seenKey{m.primary(), k.val, tc.slot}] {
-			m.classes["voided-not-dispatched(narrow-reading)"] = true
-		} else {
-			m.classes["voided-but-dispatched"] = true
+	// Middle reading: a voiding notice does not cancel the obligation, it only entitles the handler to
+	// re-fetch. While the assignment is voided (no successful fetch since the notice), every duty of the
+	// node's current assignment at this slot must be dispatched unless a fetch for this epoch / period
+	// failed since the notice (beacon-node fault) or this is the first tick after an indices-change
+	// notice (documented order there: execute, reset, fetch).
+	if a := m.last[u]; voidedStart && judged {
+		switch {
+		case m.grace[u]:
+			m.classes["voided:first-tick-after-indices-change(not judged)"] = true
+		case m.failsSince[u] > 0:
+			m.classes["voided:excused-by-failed-fetch"] = true
+		case m.anyFail[u]:
+			m.classes["voided:excused-by-failed-fetch-for-another-epoch"] = true
+		default:
+			for _, k := range sortedKeys(m.current(u)) {
+				if m.role != "sync" && k.slot != tc.slot {
+					continue
+				}
+				m.obligations++
+				if m.seen[seenKey{m.primary(), k.val, tc.slot}] {
+					m.classes["voided:refetched-and-dispatched"] = true
+					continue
+				}
+				sig := "missed-after-" + vKind
+				switch { // witness circumstances since the assignment was last fetched
+				case vDrift:
+					sig = "missed-after-notice-with-clock-behind-ticker"
+				case vSkip:
+					sig = "missed-after-notice-and-skipped-tick"
+				case vLate:
+					sig = "missed-after-late-notice"
+				}
+				state := "still holds the voided one"
+				if a != nil && a.valid {
+					state = "re-fetched it during this tick"
+				}
+				return m.failf(sig, "%s: %v duty of validator %d at slot %d of the beacon node's current assignment for epoch/period %d was not dispatched: an assignment for it had been fetched successfully before, a %s notice voided it, no fetch for it has failed since, and the handler %s", step, m.primary(), k.val, tc.slot, u, vKind, state)
+			}
 		}
+	}
+	for g := range m.grace {
+		delete(m.grace, g)
 	}
 	return nil
 }
@@ -347,7 +424,7 @@ func expandFetch(p *Prog) {
 func run(p Prog) *prog.Result {
 	res := &prog.Result{}
 	expandFetch(&p)
-	w := &world{p: p}
+	w := &world{p: p, ver: map[uint64]int{}}
 	w.comm.Store(uint32(p.Comm & 15))
 	w.other.Store(uint32(p.Other & 3))
 	cur := uint64(p.Start)
@@ -357,7 +434,9 @@ func run(p Prog) *prog.Result {
 	}
 	w.clock.Store(clock)
 
-	m := &model{role: p.Role, last: map[uint64]*assign{}, seen: map[seenKey]bool{}, classes: map[string]bool{"role=" + p.Role: true}}
+	m := &model{role: p.Role, last: map[uint64]*assign{}, seen: map[seenKey]bool{}, classes: map[string]bool{"role=" + p.Role: true},
+		failsSince: map[uint64]int{}, anyFail: map[uint64]bool{}, voidDrift: map[uint64]bool{}, voidLate: map[uint64]bool{}, skipSince: map[uint64]bool{}, grace: map[uint64]bool{}, voidKind: map[uint64]string{}}
+	m.current = w.currentOwn
 	h := newHandler(p.Role)
 	tk := &fakeTicker{c: make(chan time.Time)}
 	reorgCh := make(chan duties.ReorgEvent)
@@ -417,7 +496,7 @@ func run(p Prog) *prog.Result {
 	// only complete when the handler is back in its select, i.e. has finished the previous event.
 	sentinel := func() bool {
 		select {
-		case reorgCh <- duties.ReorgEvent{Slot: 0}:
+		case reorgCh <- duties.ReorgEvent{Slot: phase0Slot(w.clock.Load())}:
 			return true
 		case <-done:
 			return false
@@ -428,6 +507,7 @@ func run(p Prog) *prog.Result {
 	}
 
 	lastSkip := false
+	applied := map[int]bool{} // late reorgs whose version change took effect before the preceding tick
 	ticks := 0
 	for i, st := range p.Steps {
 		name := fmt.Sprintf("step %d (%s", i, st.Kind)
@@ -447,6 +527,20 @@ func run(p Prog) *prog.Result {
 			w.clock.Store(clk)
 			tk.slot.Store(cur)
 			tc = &tickCtx{slot: cur, clock: clk, fetched: map[uint64][]map[dkey]bool{}}
+			// a late notice belongs to a re-organisation that happened during the previous slot: the node
+			// serves the new assignment already when this tick is processed
+			for j := i + 1; j < len(p.Steps) && clk > 0; j++ {
+				nx := p.Steps[j]
+				if nx.Kind == "tick" || nx.Kind == "skip" {
+					break
+				}
+				if (nx.Kind == "reorg-prev" || nx.Kind == "reorg-cur") && nx.Late && !applied[j] {
+					applied[j] = true
+					for _, u := range versionUnits(p.Role, nx.Kind, clk-1) {
+						w.ver[u] = nx.V % 3
+					}
+				}
+			}
 			name += fmt.Sprintf(" slot %d clock %d)", cur, clk)
 			if ticks > 0 {
 				if cur%slotsPerEpoch == 0 {
@@ -470,6 +564,9 @@ func run(p Prog) *prog.Result {
 			}
 			lastSkip = true
 			m.classes["skipped-tick"] = true
+			for u := range m.voidKind {
+				m.skipSince[u] = true
+			}
 			clock = cur
 			w.clock.Store(clock)
 			cur++
@@ -481,7 +578,12 @@ func run(p Prog) *prog.Result {
 				m.classes["late-reorg-notice"] = true
 			}
 			name += fmt.Sprintf(" stamped slot %d, clock %d)", at, clock)
-			m.notice(st.Kind, at)
+			if !applied[i] {
+				for _, u := range versionUnits(p.Role, st.Kind, at) {
+					w.ver[u] = st.V % 3
+				}
+			}
+			m.notice(st.Kind, at, clock)
 			select {
 			case reorgCh <- duties.ReorgEvent{Slot: phase0Slot(at), Previous: st.Kind == "reorg-prev", Current: st.Kind == "reorg-cur"}:
 			case <-done:
@@ -494,7 +596,7 @@ func run(p Prog) *prog.Result {
 			if st.Comm&15 == 0 {
 				m.classes["empty-committee"] = true
 			}
-			m.notice("indices", clock)
+			m.notice("indices", clock, clock)
 			select {
 			case idxCh <- struct{}{}:
 			case <-done:
